@@ -1430,11 +1430,23 @@ func (s *Server) Connect(ctx context.Context, t Transport, opts *ServerSessionOp
 
 	// Start keepalive before returning the session to avoid race conditions with Close.
 	// This is safe because the spec allows sending pings before initialization (see ServerSession.handle for details).
-	if s.opts.KeepAlive > 0 {
+	//
+	// A keepalive ping is a server-to-client request, which a stateless (or
+	// session-less) streamable connection cannot make: its Write rejects it. Every
+	// ping would count as a failure and the session, which lives exactly as long
+	// as the HTTP request it serves, would be closed under the running handler.
+	if s.opts.KeepAlive > 0 && !cannotMakeRequests(ss.mcpConn) {
 		ss.startKeepalive(ss.server.opts.KeepAlive)
 	}
 
 	return ss, nil
+}
+
+// cannotMakeRequests reports whether conn rejects every server-to-client
+// request (see [streamableServerConn.Write]).
+func cannotMakeRequests(conn Connection) bool {
+	c, ok := conn.(*streamableServerConn)
+	return ok && c != nil && (c.stateless || c.sessionID == "")
 }
 
 // TODO: (nit) move all ServerSession methods below the ServerSession declaration.
